@@ -324,6 +324,10 @@ fn c17_expect() {
             let (body, tag) = ct.split_at(ct.len() - 16);
             let ex = c.export(b"exp", 32).unwrap();
             println!("{} mode {} enc {} ct {} tag {} export {}", name, mi, hex(&enc), hex(body), hex(tag), hex(&ex));
+            if mi == 0 {
+                // for the wipe probe (not part of the in-place probe's transcript)
+                println!("#wipe {}:{}:{}", name, hex(&c.exporter_secret), hex(&c.base_nonce));
+            }
             let mut r = setup_r(s1, mode, &enc, &sk_r, info, &psk, &psk_id, Some(&pk_s)).unwrap();
             let pt = r.open(b"aad", &ct).unwrap();
             println!("{} mode {} opened {} rexport {}", name, mi, hex(&pt), hex(&r.export(b"exp", 32).unwrap()));
